@@ -16,6 +16,7 @@
 //                           EINTR (fail once with EINTR, nothing consumed) | EIO (fail, nothing consumed)
 //  FAULTFS_TRACE=<prefix>   additionally log open/close/read/lseek on files whose path starts with <prefix> (not numbered)
 #define _GNU_SOURCE
+#include <dirent.h>
 #include <dlfcn.h>
 #include <errno.h>
 #include <fcntl.h>
@@ -242,8 +243,42 @@ ssize_t writev(int fd, const struct iovec *iov, int iovcnt) {
     return real_writev(fd, iov, iovcnt);
 }
 
+/* VERIF_BARRIER=<dir>:<n>  the first rename() of this process announces itself with a file in <dir> and waits (at most 20 s)
+ * until n processes have done so: several runs sharing a dump folder all reach "everything written, nothing renamed yet"
+ * before any of them publishes its result - the interleaving in which clashes over temporary names show. */
+static void rename_barrier(void) {
+    static int done = 0;
+    if (done) return;
+    done = 1;
+    const char *b = getenv("VERIF_BARRIER");
+    if (!b || !*b) return;
+    char dir[1024];
+    snprintf(dir, sizeof dir, "%s", b);
+    char *colon = strrchr(dir, ':');
+    if (!colon) return;
+    *colon = 0;
+    int n = atoi(colon + 1);
+    char mine[1200];
+    snprintf(mine, sizeof mine, "%s/arrived.%d", dir, (int)getpid());
+    int fd = real_open64 ? real_open64(mine, O_WRONLY | O_CREAT, 0644) : -1;
+    if (fd >= 0) real_close(fd);
+    for (int spin = 0; spin < 20000; spin++) {
+        int count = 0;
+        DIR *d = opendir(dir);
+        if (d) {
+            struct dirent *e;
+            while ((e = readdir(d)) != NULL)
+                if (!strncmp(e->d_name, "arrived.", 8)) count++;
+            closedir(d);
+        }
+        if (count >= n) return;
+        usleep(1000);
+    }
+}
+
 int rename(const char *oldpath, const char *newpath) {
     init();
+    rename_barrier();
     if (under(oldpath, target_dir, target_len) || under(newpath, target_dir, target_len)) {
         long k;
         char both[2100];
@@ -439,7 +474,6 @@ long syscall(long number, ...) {
 /* Directory listing order is an answer of the environment too (file system dependent): VERIF_READDIR=<n> serves the
  * entries of every directory stream in a permuted order - 1 reversed, n >= 2 rotated by n (after sorting by name, so that
  * the order is a function of <n> and the names only). */
-#include <dirent.h>
 #define MAXDIRS 32
 #define MAXENTS 8192
 struct dirbuf { DIR *d; struct dirent64 *ents; int n, pos; };
@@ -496,4 +530,26 @@ int closedir(DIR *d) {
     struct dirbuf *b = dirbuf_for(d, 0);
     if (b) { free(b->ents); b->ents = NULL; b->d = NULL; }
     return real_closedir(d);
+}
+
+/* Time is an answer of the environment as well: VERIF_CLOCK_STEP=<nanoseconds> makes CLOCK_MONOTONIC (what Instant::now()
+ * reads) a virtual clock that advances by that amount on every query, so that "every N seconds" code paths are crossed
+ * many times within a run of milliseconds - or never (step 0). Other clocks are left alone. */
+#include <time.h>
+static int (*real_clock_gettime)(clockid_t, struct timespec *);
+static long long clock_step = -1;
+static long long clock_now = 0;
+int clock_gettime(clockid_t clk, struct timespec *ts) {
+    if (!real_clock_gettime) real_clock_gettime = dlsym(RTLD_NEXT, "clock_gettime");
+    if (clock_step == -1) {
+        const char *s = getenv("VERIF_CLOCK_STEP");
+        clock_step = (s && *s) ? atoll(s) : -2;
+    }
+    if (clock_step >= 0 && (clk == CLOCK_MONOTONIC || clk == CLOCK_MONOTONIC_RAW || clk == CLOCK_BOOTTIME) && ts) {
+        long long t = __atomic_add_fetch(&clock_now, clock_step, __ATOMIC_SEQ_CST) + 1000000000LL * 1000;
+        ts->tv_sec = t / 1000000000LL;
+        ts->tv_nsec = t % 1000000000LL;
+        return 0;
+    }
+    return real_clock_gettime(clk, ts);
 }
